@@ -92,6 +92,13 @@ func (ut *UserTracker) setGroupForApp(applicationID string, groupTrack *GroupTra
 	ut.appGroupTrackers[applicationID] = groupTrack
 }
 
+// removeGroupForApp breaks the link between the application and the group it is tracked under
+func (ut *UserTracker) removeGroupForApp(applicationID string) {
+	ut.Lock()
+	defer ut.Unlock()
+	delete(ut.appGroupTrackers, applicationID)
+}
+
 func (ut *UserTracker) getGroupForApp(applicationID string) string {
 	ut.RLock()
 	defer ut.RUnlock()
